@@ -195,3 +195,7 @@ Definition gen_cfg : scram_cfg :=
   {| start_resets := Gen.scram_start_resets;
      final_requires_first := Gen.scram_final_requires_first;
      done_requires_verified := Gen.scram_done_requires_verified |}.
+
+(* the two records of a command issued after Auth returned (C16: the harness sends NOOP) *)
+Definition post_records (o : run_obs) (line : bytes) (r : reply) : list bytes :=
+  map log_bytes [rec_c2s (ro_active o) line; rec_s2c (ro_active o) r].
